@@ -21,11 +21,14 @@ pub struct ModelOpts {
     pub long_strings: bool,
     /// chance (of 65536) of a pool with more than 32767 constants (indices with the top bit set)
     pub huge_pool: u32,
+    /// chance (of 256) of one class with 300..6000 members and, in huge pools, of a globals
+    /// table with 300..3500 entries: index tables longer than any plausible read/write block
+    pub wide_tables: u32,
 }
 
 impl Default for ModelOpts {
     fn default() -> Self {
-        ModelOpts { line_breaks: true, big_pool: 26, big_method: 12, long_strings: true, huge_pool: 300 }
+        ModelOpts { line_breaks: true, big_pool: 26, big_method: 12, long_strings: true, huge_pool: 300, wide_tables: 10 }
     }
 }
 
@@ -161,6 +164,9 @@ pub fn generate(t: &mut Tape, o: &ModelOpts) -> Model {
             v[t.pick(v.len())]
         }
     };
+    let wide = o.wide_tables > 0 && t.chance(o.wide_tables);
+    let wide_salt = crate::tape::mix(0x77 ^ ((t.byte() as u64) << 8 | t.byte() as u64));
+    let mut wide_class_done = false;
     let mut consts = Vec::with_capacity(kinds.len());
     let mut big_method_done = false;
     for k in kinds.iter() {
@@ -170,6 +176,13 @@ pub fn generate(t: &mut Tape, o: &ModelOpts) -> Model {
             K::Bool => Const::Bool(t.flag()),
             K::Str => Const::Str(gen_string(t, o)),
             K::Slot => Const::Slot(pick(t, &strs)),
+            K::Class if wide && !wide_class_done => {
+                // one class whose member table alone is 0.6..12 KB (members may repeat: the
+                // format does not care, only object creation does)
+                wide_class_done = true;
+                let m = [300usize, 1000, 2048, 3000, 4100, 6000][(wide_salt % 6) as usize];
+                Const::Class((0..m).map(|i| members[(crate::tape::mix(wide_salt ^ i as u64) % members.len() as u64) as usize]).collect())
+            }
             K::Class => {
                 let m = t.weighted(&[2, 4, 3, 2, 1, 1]);
                 Const::Class((0..m).map(|_| pick(t, &members)).collect())
@@ -229,6 +242,12 @@ pub fn generate(t: &mut Tape, o: &ModelOpts) -> Model {
     }
     let ng = t.pick(6);
     let mut globals: Vec<u16> = vec![];
+    if wide && members.len() >= 300 {
+        // a long globals table (entries must be distinct): a stretch of the available members
+        let want = [300usize, 2048, 3500][((wide_salt >> 8) % 3) as usize].min(members.len());
+        let start = (wide_salt >> 16) as usize % (members.len() - want + 1);
+        globals.extend_from_slice(&members[start..start + want]);
+    }
     for _ in 0..ng {
         let g = pick(t, &members);
         if !globals.contains(&g) {
